@@ -33,11 +33,18 @@ private theorem segs_le_render : ∀ (segs : List (List Char × Esc)) (tail : Li
 theorem decode_eq_reference (b : Body) (h : b.WF) : parseString b.render = .ok b.meaning := by
   unfold parseString Body.render
   have hlast : ('"' :: renderSegs b.segs b.tail ++ ['"']).getLast? = some '"' := by
-    simp [List.getLast?_append]
+    rw [List.getLast?_eq_some_iff]; exact ⟨'"' :: renderSegs b.segs b.tail, rfl⟩
   simp only [hlast, ne_eq, not_true_eq_false, if_false]
   have hcons : ('"' :: renderSegs b.segs b.tail ++ ['"']) = '"' :: (renderSegs b.segs b.tail ++ ['"']) := rfl
   rw [hcons]
-  simp only [List.dropLast_concat]
+  have hdl : (renderSegs b.segs b.tail ++ ['"']).dropLast = renderSegs b.segs b.tail := by simp
+  obtain ⟨y, ys, hy⟩ : ∃ y ys, renderSegs b.segs b.tail ++ ['"'] = y :: ys := by
+    cases hX : renderSegs b.segs b.tail ++ ['"'] with
+    | nil => simp at hX
+    | cons y ys => exact ⟨y, ys, rfl⟩
+  rw [hy]
+  dsimp only
+  rw [← hy, hdl]
   have := unescape_segs b.segs b.tail [] ((renderSegs b.segs b.tail ++ ['"']).length + 1) h (by
     have := segs_le_render b.segs b.tail
     simp only [List.length_append, List.length_cons, List.length_nil]; omega)
@@ -48,23 +55,22 @@ theorem decode_raw_eq (k : Nat) (content : List Char) :
     parseRawString (renderRaw k content) = .ok content := by
   unfold parseRawString renderRaw
   simp only [List.drop_one, List.tail_cons]
-  have htw : (List.replicate k '#' ++ '"' :: content ++ '"' :: List.replicate k '#').takeWhile (· = '#')
-      = List.replicate k '#' := by
-    have := (takeWhile_run (fun c => decide (c = '#')) (List.replicate k '#') '"'
-      (content ++ '"' :: List.replicate k '#') (by intro c hc; simp [List.eq_of_mem_replicate hc]) (by decide)).1
-    simpa using this
-  have hrev : (List.replicate k '#' ++ '"' :: content ++ '"' :: List.replicate k '#').reverse
+  have hall : ∀ c ∈ List.replicate k '#', decide (c = '#') = true := by
+    intro c hc; simp [List.eq_of_mem_replicate hc]
+  have hq : decide ('"' = '#') = false := by decide
+  have htw : (List.replicate k '#' ++ '"' :: (content ++ '"' :: List.replicate k '#')).takeWhile (· = '#')
+      = List.replicate k '#' :=
+    (takeWhile_run (fun c => decide (c = '#')) _ '"' _ hall hq).1
+  have hrev : (List.replicate k '#' ++ '"' :: (content ++ '"' :: List.replicate k '#')).reverse
       = List.replicate k '#' ++ '"' :: (content.reverse ++ '"' :: List.replicate k '#') := by
     simp [List.reverse_append, List.reverse_replicate]
-  have htw2 : ((List.replicate k '#' ++ '"' :: content ++ '"' :: List.replicate k '#').reverse).takeWhile (· = '#')
+  have htw2 : ((List.replicate k '#' ++ '"' :: (content ++ '"' :: List.replicate k '#')).reverse).takeWhile (· = '#')
       = List.replicate k '#' := by
     rw [hrev]
-    have := (takeWhile_run (fun c => decide (c = '#')) (List.replicate k '#') '"'
-      (content.reverse ++ '"' :: List.replicate k '#') (by intro c hc; simp [List.eq_of_mem_replicate hc]) (by decide)).1
-    simpa using this
+    exact (takeWhile_run (fun c => decide (c = '#')) _ '"' _ hall hq).1
   rw [htw, htw2]
-  simp only [List.length_replicate, List.append_assoc, List.drop_left' (List.length_replicate ..)]
-  simp only [List.cons_append, ne_eq, not_true_eq_false, if_false, List.length_append, List.length_cons,
+  simp only [List.length_replicate, List.drop_left' (List.length_replicate ..)]
+  simp only [ne_eq, not_true_eq_false, if_false, List.length_append, List.length_cons,
     List.length_replicate]
   have hlen : ¬ (k ≥ k + (content.length + (k + 1) + 1)) := by omega
   simp only [hlen, if_false]
@@ -84,7 +90,7 @@ theorem decode_raw_eq (k : Nat) (content : List Char) :
   congr 1
   have e : List.replicate k '#' ++ '"' :: (content ++ '"' :: List.replicate k '#')
       = (List.replicate k '#' ++ ['"']) ++ (content ++ '"' :: List.replicate k '#') := by simp
-  rw [e, List.take_append_eq_append_take]
+  rw [e, List.take_append]
   simp only [List.length_append, List.length_replicate, List.length_cons, List.length_nil]
   rw [List.take_of_length_le (by simp)]
   have : k + 1 + content.length - (k + 0 + 1) = content.length := by omega
@@ -165,6 +171,137 @@ theorem findLoop_eq_spec (arms : Arms) (bytes : List Nat) :
       have := findFrom_shift arms b bytes (List.range (bytes.length + 1))
       simpa [Function.comp_def] using this.symm
 
+/-- rfind_skip form: the latest position (scanning ends len, len-1, …, 0) at which any alternative
+    matches as a suffix, and there the first listed alternative; the remainder ends right before it -/
+theorem rfindLoop_eq_spec (arms : Arms) (bytes : List Nat) :
+    rfindLoop arms bytes.length bytes = rfindSkipSpec arms bytes := by
+  have key : ∀ (e : Nat), e ≤ bytes.length →
+      rfindLoop arms e (bytes.take e) = rfindFrom arms bytes (List.range (e + 1)).reverse := by
+    intro e
+    induction e with
+    | zero =>
+      intro _
+      have hr : (List.range (0 + 1)).reverse = [0] := by decide
+      rw [hr]
+      simp only [List.take_zero, rfindLoop, firstArm_end, stripSuffixSpec, rfindFrom]
+      cases firstSuffix arms [] <;> simp
+    | succ e ih =>
+      intro he
+      have hlen : (bytes.take (e + 1)).length = e + 1 := by simp; omega
+      have hne : bytes.take (e + 1) ≠ [] := by
+        intro h; rw [h] at hlen; simp at hlen
+      rw [List.range_succ, List.reverse_append]
+      simp only [List.reverse_cons, List.reverse_nil, List.nil_append, List.singleton_append, rfindFrom]
+      rw [rfindLoop, firstArm_end, stripSuffixSpec]
+      cases h : firstSuffix arms (bytes.take (e + 1)) with
+      | some a =>
+        simp only [Option.map_some, hlen, List.take_take]
+        congr 2
+        rw [Nat.min_eq_left (Nat.sub_le _ _)]
+      | none =>
+        simp only [Option.map_none, hne, if_false]
+        have hd : (bytes.take (e + 1)).dropLast = bytes.take e := by
+          rw [List.dropLast_eq_take, hlen, List.take_take]; simp
+        rw [hd]
+        exact ih (by omega)
+  have := key bytes.length (Nat.le_refl _)
+  rw [List.take_length] at this
+  exact this
+
+private theorem firstPrefix_len (arms : Arms) (bytes : List Nat) (a : Nat × List Nat)
+    (h : firstPrefix arms bytes = some a) : a.2.length ≤ bytes.length := by
+  have := List.find?_some h
+  simp only [List.isPrefixOf_iff_prefix] at this
+  exact this.length_le
+
+private theorem firstSuffix_len (arms : Arms) (bytes : List Nat) (a : Nat × List Nat)
+    (h : firstSuffix arms bytes = some a) : a.2.length ≤ bytes.length := by
+  have := List.find?_some h
+  simp only [List.isSuffixOf_iff_suffix] at this
+  exact this.length_le
+
+/-- trim_start_matches form: repeatedly remove the first listed alternative that is a prefix, until
+    none is, or the one that matches is the empty literal -/
+theorem trimStart_eq_spec (arms : Arms) : ∀ (fuel : Nat) (bytes : List Nat), bytes.length < fuel →
+    trimLoop matchStart arms fuel bytes = trimStartSpec arms bytes := by
+  intro fuel
+  induction fuel with
+  | zero => intro bytes h; omega
+  | succ f ih =>
+    intro bytes hf
+    rw [trimLoop, firstArm_start, stripPrefixSpec, trimStartSpec]
+    cases h : firstPrefix arms bytes with
+    | none => rfl
+    | some a =>
+      have hl := firstPrefix_len arms bytes a h
+      simp only [Option.map_some, List.length_drop]
+      by_cases h0 : a.2.length = 0
+      · simp [h0]
+      · have h1 : ¬ (bytes.length - a.2.length = bytes.length) := by omega
+        have h2 : ¬ (a.2.length = 0 ∨ bytes.length < a.2.length) := by omega
+        simp only [h1, h2, if_false, dite_false]
+        exact ih _ (by simp only [List.length_drop]; omega)
+
+/-- trim_end_matches form -/
+theorem trimEnd_eq_spec (arms : Arms) : ∀ (fuel : Nat) (bytes : List Nat), bytes.length < fuel →
+    trimLoop matchEnd arms fuel bytes = trimEndSpec arms bytes := by
+  intro fuel
+  induction fuel with
+  | zero => intro bytes h; omega
+  | succ f ih =>
+    intro bytes hf
+    rw [trimLoop, firstArm_end, stripSuffixSpec, trimEndSpec]
+    cases h : firstSuffix arms bytes with
+    | none => rfl
+    | some a =>
+      have hl := firstSuffix_len arms bytes a h
+      simp only [Option.map_some, List.length_take]
+      by_cases h0 : a.2.length = 0
+      · simp [h0]
+      · have h1 : ¬ (min (bytes.length - a.2.length) bytes.length = bytes.length) := by omega
+        have h2 : ¬ (a.2.length = 0 ∨ bytes.length < a.2.length) := by omega
+        simp only [h1, h2, if_false, dite_false]
+        exact ih _ (by simp only [List.length_take]; omega)
+
+/-- the whole trim forms: the bytes handed to `Parser::skip` / `skip_back` are the spec's remainder -/
+theorem trim_form_eq_repeat (arms : Arms) (p : PState) :
+    trimStartMatches arms p = setStart p (trimStartSpec arms p.rem) ∧
+    trimEndMatches arms p = setEnd p (trimEndSpec arms p.rem) := by
+  unfold trimStartMatches trimEndMatches
+  rw [trimStart_eq_spec arms _ _ (Nat.lt_succ_self _), trimEnd_eq_spec arms _ _ (Nat.lt_succ_self _)]
+  exact ⟨rfl, rfl⟩
+
+/-- find forms as a whole -/
+theorem find_form_earliest_then_first_listed (arms : Arms) (p : PState) :
+    findSkip arms p = (match findSkipSpec arms p.rem with
+                       | some (i, rem) => (some i, setStart p rem)
+                       | none => (none, p)) ∧
+    rfindSkip arms p = (match rfindSkipSpec arms p.rem with
+                        | some (i, rem) => (some i, setEnd p rem)
+                        | none => (none, p)) := by
+  unfold findSkip rfindSkip
+  rw [findLoop_eq_spec, rfindLoop_eq_spec]
+  exact ⟨rfl, rfl⟩
+
+/-- `Parser::skip(n)` / `skip_back(n)` at a char boundary within the remainder consume exactly
+    `n` bytes: start offset + n (resp. end offset − n), remainder cut there, no rounding -/
+theorem skip_exact (p : PState) (n : Nat) (hn : n ≤ p.rem.length)
+    (hb : Konst.Utf8.isCharBoundaryBytes p.rem n = true) :
+    skip p n = ⟨p.start + n, p.rem.drop n⟩ := by
+  unfold skip
+  have : ¬ n > p.rem.length := by omega
+  simp only [this, if_false]
+  rw [skip.up]
+  simp [hb]
+
+theorem skipBack_exact (p : PState) (n : Nat) (hn : n ≤ p.rem.length)
+    (hb : Konst.Utf8.isCharBoundaryBytes p.rem (p.rem.length - n) = true) :
+    skipBack p n = ⟨p.start, p.rem.take (p.rem.length - n)⟩ := by
+  unfold skipBack
+  cases hm : p.rem.length - n with
+  | zero => simp [skipBack.down]
+  | succ m => rw [hm] at hb; simp [skipBack.down, hb]
+
 /-- strip forms -/
 theorem strip_form_eq (arms : Arms) (p : PState) :
     (stripPrefix arms p).1 = (stripPrefixSpec arms p.rem).map (·.1) ∧
@@ -196,8 +333,9 @@ theorem default_leaves_parser_unchanged (arms : Arms) (p : PState) :
 
 -- non-vacuity / sanity (kernel-evaluated)
 private def lit (s : String) : List Nat := s.toUTF8.toList.map (·.toNat)
-example : parseString "\"a\\n\\x41\\u{1_F600}\\\n   b\"".toList = .ok "a\nA😀b".toList := by decide
-example : parseRawString "r#\"a\"b\"#".toList = .ok "a\"b".toList := by decide
+example : parseString ['"', 'a', '\\', 'n', '\\', 'x', '4', '1', '\\', 'u', '{', '1', '_', 'F', '6', '0', '0', '}',
+    '\\', '\n', ' ', ' ', 'b', '"'] = .ok ['a', '\n', 'A', '😀', 'b'] := by rfl
+example : parseRawString ['r', '#', '"', 'a', '"', 'b', '"', '#'] = .ok ['a', '"', 'b'] := by rfl
 example : findLoop [(0, [98, 99]), (1, [98])] [97, 98, 99, 100] = some (0, [100]) := by decide
 example : findSkipSpec [(0, [98, 99]), (1, [98])] [97, 98, 99, 100] = some (0, [100]) := by decide
 
